@@ -284,4 +284,260 @@ HasDefault(t) ==
     [] t.k = "multi" -> \A m \in t.ms : HasDefault(m)
     [] OTHER -> TRUE
 
+
+(***************************************************************************)
+(* Part 2 - first-order values (C20).                                        *)
+(*                                                                           *)
+(* Values (field names carry one kind of value each, so that TLC can sort   *)
+(* sets of them whatever order it gives the fields):                         *)
+(*   [k |-> "bool", b |-> TRUE]                                              *)
+(*   [k |-> "int", neg |-> FALSE, mag |-> <<4, 2>>]   decimal digits of the  *)
+(*        magnitude, no leading zero; zero is <<0>> with neg = FALSE         *)
+(*   [k |-> "float", neg |-> TRUE, fid |-> "zero"]    sign and the NAME of   *)
+(*        the magnitude in the model's leaf table (-0.0 here)                *)
+(*   [k |-> "string", sid |-> "nul_digit"]            NAME in the leaf table *)
+(*   [k |-> "void"]  [k |-> "array", es |-> <<...>>]  [k |-> "tuple", es]    *)
+(* The text of a value is a sequence of token RECORDS: punctuation           *)
+(* [a |-> "p", c |-> "["], and atoms [a |-> "int", mag], [a |-> "float",     *)
+(* fid], [a |-> "str", sid], [a |-> "bool", b].  PrintVal fixes brackets,    *)
+(* separators and where the minus sign goes; the digits of a float and the   *)
+(* escapes of a string are NOT modelled (TLA+ has neither IEEE-754 nor       *)
+(* characters): an atom stands for "the literal of that leaf", and the       *)
+(* oracle for a leaf's text is the round-trip equation itself, evaluated by  *)
+(* the harness.  Integer literals are modelled to the digit: FromDigits      *)
+(* gives the value of every literal form in 8 limbs of 8 bits with overflow  *)
+(* detection (TLC's own integers are 32-bit).                                *)
+(***************************************************************************)
+LBool(b)       == [k |-> "bool", b |-> b]
+LInt(neg, mag) == [k |-> "int", neg |-> neg, mag |-> mag]
+LFloat(neg, f) == [k |-> "float", neg |-> neg, fid |-> f]
+LStr(sid)      == [k |-> "string", sid |-> sid]
+LVoid          == [k |-> "void"]
+LArr(es)       == [k |-> "array", es |-> es]
+LTup(es)       == [k |-> "tuple", es |-> es]
+NormInt(neg, mag) == IF mag = <<0>> THEN LInt(FALSE, mag) ELSE LInt(neg, mag)
+
+RECURSIVE WellFormedVal(_)
+WellFormedVal(v) ==
+  CASE v.k = "int" -> /\ Len(v.mag) >= 1 /\ \A i \in 1..Len(v.mag) : v.mag[i] \in 0..9
+                      /\ (Len(v.mag) > 1 => v.mag[1] # 0) /\ (v.mag = <<0>> => ~v.neg)
+    [] v.k = "array" -> \A i \in 1..Len(v.es) : WellFormedVal(v.es[i])
+    [] v.k = "tuple" -> Len(v.es) >= 2 /\ \A i \in 1..Len(v.es) : WellFormedVal(v.es[i])
+    [] OTHER -> TRUE
+
+\* run-time tag of a literal value: an array's hidden element type is the join of its elements'
+RECURSIVE VTag(_)
+VTag(v) ==
+  CASE v.k = "array" -> Arr(JoinLeft([i \in 1..Len(v.es) |-> VTag(v.es[i])]))
+    [] v.k = "tuple" -> Tup([i \in 1..Len(v.es) |-> VTag(v.es[i])])
+    [] OTHER -> Base(v.k)
+
+Pn(c) == [a |-> "p", c |-> c]
+AtomInt(mag) == [a |-> "int", mag |-> mag]
+AtomFloat(f) == [a |-> "float", fid |-> f]
+AtomStr(sid) == [a |-> "str", sid |-> sid]
+AtomBool(b)  == [a |-> "bool", b |-> b]
+
+RECURSIVE PrintVal(_)
+PrintVal(v) ==
+  LET List(es) == SepBy([i \in 1..Len(es) |-> PrintVal(es[i])], <<Pn(",")>>)
+      Sign == IF v.neg THEN <<Pn("-")>> ELSE <<>>
+  IN CASE v.k = "bool"   -> <<AtomBool(v.b)>>
+       [] v.k = "int"    -> Sign \o <<AtomInt(v.mag)>>
+       [] v.k = "float"  -> Sign \o <<AtomFloat(v.fid)>>
+       [] v.k = "string" -> <<AtomStr(v.sid)>>
+       [] v.k = "void"   -> <<Pn("("), Pn(")")>>
+       [] v.k = "array"  -> <<Pn("[")>> \o List(v.es) \o <<Pn("]")>>
+       [] v.k = "tuple"  -> <<Pn("(")>> \o List(v.es) \o <<Pn(")")>>
+
+(***************************************************************************)
+(* Integer magnitudes: 8 little-endian limbs of 8 bits.                      *)
+(***************************************************************************)
+Limbs0 == <<0, 0, 0, 0, 0, 0, 0, 0>>
+MulAdd(l, radix, d) ==       \* l * radix + d; c = carry out of the 64 bits
+  LET RECURSIVE Go(_, _, _)
+      Go(i, carry, acc) == IF i > 8 THEN [l |-> acc, c |-> carry]
+                           ELSE LET x == l[i] * radix + carry IN Go(i + 1, x \div 256, Append(acc, x % 256))
+  IN Go(1, d, <<>>)
+RECURSIVE FromDigitsFrom(_, _, _, _)
+FromDigitsFrom(ds, radix, i, acc) ==
+  IF i > Len(ds) THEN [ok |-> TRUE, l |-> acc]
+  ELSE LET r == MulAdd(acc, radix, ds[i]) IN
+       IF r.c # 0 THEN [ok |-> FALSE] ELSE FromDigitsFrom(ds, radix, i + 1, r.l)
+\* the mathematical value of a digit sequence as an unsigned 64-bit magnitude, or not ok
+FromDigits(ds, radix) == FromDigitsFrom(ds, radix, 1, Limbs0)
+MinMagLimbs == <<0, 0, 0, 0, 0, 0, 0, 128>>                  \* 2^63
+FitsPos(m) == m.ok /\ m.l[8] < 128                            \* 0 .. 2^63 - 1
+FitsNeg(m) == m.ok /\ (m.l[8] < 128 \/ m.l = MinMagLimbs)     \* magnitude of MIN .. 0
+TwosNeg(l) ==
+  LET RECURSIVE Go(_, _, _)
+      Go(i, carry, acc) == IF i > 8 THEN acc
+                           ELSE LET x == (255 - l[i]) + carry IN Go(i + 1, x \div 256, Append(acc, x % 256))
+  IN Go(1, 1, <<>>)
+SignedLimbs(neg, l) == IF neg THEN TwosNeg(l) ELSE l
+\* for validating the limb algorithm against TLC's integers on small values
+LimbsToNat(l) == l[1] + 256 * l[2] + 65536 * l[3] + 16777216 * l[4]
+RECURSIVE Horner(_, _, _, _)
+Horner(ds, radix, i, acc) == IF i > Len(ds) THEN acc ELSE Horner(ds, radix, i + 1, acc * radix + ds[i])
+
+\* what an int leaf denotes on each route
+IntOkSigned(v) == IF v.neg THEN FitsNeg(FromDigits(v.mag, 10)) ELSE FitsPos(FromDigits(v.mag, 10))
+IntOkMagnitude(v) == FitsPos(FromDigits(v.mag, 10))
+RECURSIVE AllIntsSigned(_), AllIntsMagnitude(_)
+AllIntsSigned(v) ==
+  CASE v.k = "int" -> IntOkSigned(v)
+    [] v.k \in {"array", "tuple"} -> \A i \in 1..Len(v.es) : AllIntsSigned(v.es[i])
+    [] OTHER -> TRUE
+AllIntsMagnitude(v) ==
+  CASE v.k = "int" -> IntOkMagnitude(v)
+    [] v.k \in {"array", "tuple"} -> \A i \in 1..Len(v.es) : AllIntsMagnitude(v.es[i])
+    [] OTHER -> TRUE
+
+(***************************************************************************)
+(* The two readers.  Results: [ok |-> FALSE] or [ok |-> TRUE, v, i].         *)
+(*  - LitAt: the rule var_from_str of simplesl.pest (Variable::from_str):    *)
+(*    bool | minus_float | float | minus_int | int | array_from_str |        *)
+(*    array_repeat_from_str | string | void | tuple_from_str | struct...     *)
+(*  - ProgAt: the expression grammar restricted to what a printed value can  *)
+(*    contain: atom = prefix_op? primary, primary = literal | array | tuple  *)
+(*    | "(" expr ")"; unary minus negates the value of its operand.          *)
+(* Both parse first and convert integers afterwards, so "too big for int"    *)
+(* is decided on the parsed value: with its sign by from_str (minus_int is   *)
+(* part of the literal), on the bare magnitude by a program (the literal is  *)
+(* the operand of a unary minus).                                            *)
+(***************************************************************************)
+IsP(s, i, c) == i <= Len(s) /\ s[i].a = "p" /\ s[i].c = c
+IsA(s, i, a) == i <= Len(s) /\ s[i].a = a
+FailV == [ok |-> FALSE]
+OkV(v, i) == [ok |-> TRUE, v |-> v, i |-> i]
+
+RECURSIVE LitAt(_, _), LitMore(_, _, _)
+LitMore(s, i, acc) ==           \* greedy ("," var_from_str)*
+  IF ~IsP(s, i, ",") THEN [vs |-> acc, i |-> i]
+  ELSE LET r == LitAt(s, i + 1) IN
+       IF r.ok THEN LitMore(s, r.i, Append(acc, r.v)) ELSE [vs |-> acc, i |-> i]
+LitAt(s, i) ==
+  IF IsA(s, i, "bool") THEN OkV(LBool(s[i].b), i + 1)
+  ELSE IF IsP(s, i, "-") /\ IsA(s, i + 1, "float") THEN OkV(LFloat(TRUE, s[i + 1].fid), i + 2)
+  ELSE IF IsA(s, i, "float") THEN OkV(LFloat(FALSE, s[i].fid), i + 1)
+  ELSE IF IsP(s, i, "-") /\ IsA(s, i + 1, "int") THEN OkV(NormInt(TRUE, s[i + 1].mag), i + 2)
+  ELSE IF IsA(s, i, "int") THEN OkV(LInt(FALSE, s[i].mag), i + 1)
+  ELSE IF IsP(s, i, "[") THEN        \* "[" var_list? "]"   ("[v; n]" is never printed)
+         LET first == LitAt(s, i + 1)
+             l == IF first.ok THEN LitMore(s, first.i, <<first.v>>) ELSE [vs |-> <<>>, i |-> i + 1]
+         IN IF IsP(s, l.i, "]") THEN OkV(LArr(l.vs), l.i + 1) ELSE FailV
+  ELSE IF IsA(s, i, "str") THEN OkV(LStr(s[i].sid), i + 1)
+  ELSE IF IsP(s, i, "(") /\ IsP(s, i + 1, ")") THEN OkV(LVoid, i + 2)
+  ELSE IF IsP(s, i, "(") THEN        \* "(" var "," var_list ")"
+         LET first == LitAt(s, i + 1) IN
+         IF ~first.ok THEN FailV
+         ELSE LET l == LitMore(s, first.i, <<first.v>>) IN
+              IF Len(l.vs) >= 2 /\ IsP(s, l.i, ")") THEN OkV(LTup(l.vs), l.i + 1) ELSE FailV
+  ELSE FailV
+
+Negate(v) == IF v.k = "int" THEN NormInt(~v.neg, v.mag) ELSE LFloat(~v.neg, v.fid)
+RECURSIVE ProgAt(_, _), PrimaryAt(_, _), ProgMore(_, _, _)
+ProgMore(s, i, acc) ==
+  IF ~IsP(s, i, ",") THEN [vs |-> acc, i |-> i]
+  ELSE LET r == ProgAt(s, i + 1) IN
+       IF r.ok THEN ProgMore(s, r.i, Append(acc, r.v)) ELSE [vs |-> acc, i |-> i]
+ProgAt(s, i) ==
+  IF IsP(s, i, "-") THEN
+       LET r == PrimaryAt(s, i + 1) IN
+       IF r.ok /\ r.v.k \in {"int", "float"} THEN OkV(Negate(r.v), r.i) ELSE FailV
+  ELSE PrimaryAt(s, i)
+PrimaryAt(s, i) ==                  \* var = bool | float | int | array | ... | string | ... | void | tuple
+  IF IsA(s, i, "bool") THEN OkV(LBool(s[i].b), i + 1)
+  ELSE IF IsA(s, i, "float") THEN OkV(LFloat(FALSE, s[i].fid), i + 1)
+  ELSE IF IsA(s, i, "int") THEN OkV(LInt(FALSE, s[i].mag), i + 1)
+  ELSE IF IsP(s, i, "[") THEN
+         LET first == ProgAt(s, i + 1)
+             l == IF first.ok THEN ProgMore(s, first.i, <<first.v>>) ELSE [vs |-> <<>>, i |-> i + 1]
+         IN IF IsP(s, l.i, "]") THEN OkV(LArr(l.vs), l.i + 1) ELSE FailV
+  ELSE IF IsA(s, i, "str") THEN OkV(LStr(s[i].sid), i + 1)
+  ELSE IF IsP(s, i, "(") /\ IsP(s, i + 1, ")") THEN OkV(LVoid, i + 2)
+  ELSE IF IsP(s, i, "(") THEN
+         LET first == ProgAt(s, i + 1) IN
+         IF ~first.ok THEN FailV
+         ELSE LET l == ProgMore(s, first.i, <<first.v>>) IN
+              IF ~IsP(s, l.i, ")") THEN FailV
+              ELSE IF Len(l.vs) >= 2 THEN OkV(LTup(l.vs), l.i + 1)
+              ELSE OkV(first.v, l.i + 1)                      \* expr_in_brackets
+  ELSE FailV
+
+Syntax == [st |-> "syntax"]
+Overflow == [st |-> "overflow"]
+Denotes(v) == [st |-> "ok", v |-> v]
+FromStrOutcome(toks) ==
+  LET r == LitAt(toks, 1) IN
+  IF ~(r.ok /\ r.i = Len(toks) + 1) THEN Syntax
+  ELSE IF ~AllIntsSigned(r.v) THEN Overflow ELSE Denotes(r.v)
+\* in a program the magnitudes are literals of their own: judged before the minus is applied
+ProgOutcome(toks) ==
+  LET r == ProgAt(toks, 1) IN
+  IF ~(r.ok /\ r.i = Len(toks) + 1) THEN Syntax
+  ELSE IF ~AllIntsMagnitude(r.v) THEN Overflow ELSE Denotes(r.v)
+
+(***************************************************************************)
+(* Laws (C20).                                                              *)
+(***************************************************************************)
+MinMag == <<9, 2, 2, 3, 3, 7, 2, 0, 3, 6, 8, 5, 4, 7, 7, 5, 8, 0, 8>>
+IsMinInt(v) == v.k = "int" /\ v.neg /\ v.mag = MinMag
+RECURSIVE ContainsMinInt(_)
+ContainsMinInt(v) == CASE v.k = "int" -> IsMinInt(v)
+                       [] v.k \in {"array", "tuple"} -> \E i \in 1..Len(v.es) : ContainsMinInt(v.es[i])
+                       [] OTHER -> FALSE
+\* an int of the language: representable with its sign
+IsI64(v) == IntOkSigned(v)
+\* the text parses back, as a literal, to the value (hence to the same tag)
+LitRoundTrip(v) == FromStrOutcome(PrintVal(v)) = Denotes(v)
+\* ... and as a program, except that MIN_INT's magnitude is not an int: then the program is rejected
+ProgRoundTrip(v) == ProgOutcome(PrintVal(v)) = IF ContainsMinInt(v) THEN Overflow ELSE Denotes(v)
+\* MIN_INT is the only int whose magnitude is not an int
+MinIntOnly(v) == (v.k = "int" /\ IsI64(v)) => (IsMinInt(v) <=> ~IntOkMagnitude(v))
+
+(***************************************************************************)
+(* Integer literal forms: prefix, digits, underscores.                       *)
+(*   binary = "_"* BIN (BIN | "_")*  (same for octal, hexadecimal)           *)
+(*   decimal = DIGIT (DIGIT | "_")*                                          *)
+(***************************************************************************)
+DigitChars == <<"0", "1", "2", "3", "4", "5", "6", "7", "8", "9", "a", "b", "c", "d", "e", "f">>
+UpperChars == <<"0", "1", "2", "3", "4", "5", "6", "7", "8", "9", "A", "B", "C", "D", "E", "F">>
+DigitVal(ch) == IF \E d \in 1..16 : DigitChars[d] = ch THEN (CHOOSE d \in 1..16 : DigitChars[d] = ch) - 1
+                ELSE IF \E d \in 1..16 : UpperChars[d] = ch THEN (CHOOSE d \in 1..16 : UpperChars[d] = ch) - 1
+                ELSE -1
+IsDigitIn(ch, radix) == DigitVal(ch) >= 0 /\ DigitVal(ch) < radix
+LitPrefix(radix) == CASE radix = 2 -> <<"0", "b">> [] radix = 8 -> <<"0", "o">>
+                      [] radix = 16 -> <<"0", "x">> [] radix = 10 -> <<>>
+WellFormedBody(cs, radix) ==
+  /\ Len(cs) >= 1
+  /\ \A j \in 1..Len(cs) : cs[j] = "_" \/ IsDigitIn(cs[j], radix)
+  /\ \E j \in 1..Len(cs) : cs[j] # "_"
+  /\ (radix = 10 => cs[1] # "_")
+BodyDigits(cs) == LET ds == SelectSeq(cs, LAMBDA c : c # "_") IN [i \in 1..Len(ds) |-> DigitVal(ds[i])]
+\* [k |-> "int", l |-> two's complement limbs] or [k |-> "overflow"]
+LitInt(l) == [k |-> "int", l |-> l]
+LitOverflow == [k |-> "overflow"]
+\* Variable::from_str: the sign is part of the literal (minus_int)
+LitFromStr(neg, radix, body) ==
+  LET m == FromDigits(BodyDigits(body), radix) IN
+  IF (IF neg THEN FitsNeg(m) ELSE FitsPos(m)) THEN LitInt(SignedLimbs(neg, m.l)) ELSE LitOverflow
+\* in a program the literal is the magnitude; a minus in front is an operator
+LitInProgram(neg, radix, body) ==
+  LET m == FromDigits(BodyDigits(body), radix) IN
+  IF FitsPos(m) THEN LitInt(SignedLimbs(neg, m.l)) ELSE LitOverflow
+
+\* digits of a 64-bit magnitude in radix 2, 8, 16 (most significant first, no leading zeros)
+BitOf(l, j) == (l[(j \div 8) + 1] \div (2 ^ (j % 8))) % 2            \* j = 0 .. 63
+ToRadix(l, radix) ==
+  LET w == CASE radix = 2 -> 1 [] radix = 8 -> 3 [] radix = 16 -> 4
+      n == (63 \div w) + 1
+      dig(g) == LET RECURSIVE S(_) S(b) == IF b = w THEN 0
+                                            ELSE (IF g * w + b <= 63 THEN BitOf(l, g * w + b) * (2 ^ b) ELSE 0) + S(b + 1)
+                IN S(0)                                               \* digit number g, least significant = 0
+      all == [i \in 1..n |-> dig(n - i)]
+      first == IF \E i \in 1..n : all[i] # 0 THEN CHOOSE i \in 1..n : all[i] # 0 /\ \A j \in 1..(i - 1) : all[j] = 0 ELSE n
+  IN SubSeq(all, first, n)
+CharsOf(ds, upper) == [i \in 1..Len(ds) |-> IF upper THEN UpperChars[ds[i] + 1] ELSE DigitChars[ds[i] + 1]]
+
 =============================================================================
